@@ -1921,7 +1921,42 @@ def r5_11_constructed_rectangle_validated(ck, P, rid='C05-R11'):
                 if set(ks) == {'y1', 'y2'}:
                     cmpd.add('y')
             where = '%s/%s' % (u.name, fn)
-            if cmpd == {'x', 'y'}:
+            # the comparison has to exclude the rectangle that is empty *on that axis alone*: with x1 == x2 (then y1 == y2) and nothing else
+            # known, no path reaches the store that makes the region a single rectangle (data = NULL)
+            single = {x.bb.id for x in f.insts() if x.op == 'store' and x.a[0][0] == 'n' and (f.last_field(f.path(x.a[1])) or '').endswith('.data')}
+            slipped = None
+            if cmpd == {'x', 'y'} and single:
+                for axis in ('x', 'y'):
+                    def known(x, axis=axis):
+                        if x.op != 'icmp':
+                            return None
+                        ks = []
+                        for o in x.a:
+                            y = f.v(o)
+                            while y is not None and y.op in ('sext', 'zext', 'trunc'):
+                                y = f.v(y.a[0])
+                            if y is not None and y.op == 'load':
+                                st = [str(q) for q in f.path(y.a[0])[1]]
+                                ks.append(st[-1].split('.')[-1] if st else None)
+                            else:
+                                ks.append(None)
+                        if set(ks) != {axis + '1', axis + '2'}:
+                            return None
+                        return int({'eq': True, 'ne': False, 'slt': False, 'sgt': False, 'sle': True, 'sge': True, 'ult': False, 'ugt': False, 'ule': True, 'uge': True}[x.d['p']])
+                    # paths on which the library has declared the argument a caller's bug (critical_if_fail logs and goes on) do not count
+                    logged = {b.id for b in f.blocks if common.is_log_error_block(f, b.id)}
+                    for sb in sorted(common.reach_under(f, known, single, avoid=logged)):
+                        st_ = [x for x in f.blocks[sb].insts if x.op == 'store' and x.a[0][0] == 'n' and (f.last_field(f.path(x.a[1])) or '').endswith('.data')][0]
+                        root_ = f.root(f.path(st_.a[1]))
+                        # a later store to the same data field (the empty sentinel) repairs it: is a use / return reachable without one?
+                        later = {x.bb.id for x in f.insts() if x.op == 'store' and x is not st_ and (f.last_field(f.path(x.a[1])) or '').endswith('.data') and f.root(f.path(x.a[1])) == root_ and not (x.bb.id == sb and x.i < st_.i)}
+                        uses = {x.bb.id for x in f.insts() if (x.op == 'ret') or (x.op == 'call' and x.callee and not x.callee.startswith('llvm.') and any(a and a[0] == 'v' and f.root(f.path(a)) == root_ for a in x.a))}
+                        uses -= {sb} if not any(x.op == 'ret' for x in f.blocks[sb].insts) else set()
+                        if common.reach_under(f, known, uses - later, start=sb, avoid=(later | logged) - {sb}):
+                            slipped = axis
+            if slipped:
+                ck.violation(R, fn, 'empty rectangle accepted (%s)' % _w(u), '%s compares the coordinates of the rectangle it is given, but with %s1 == %s2 (a rectangle without points) and nothing else known it still reaches the store that makes the region a single rectangle (data = NULL): the result has no points, yet it is not the empty region - not_empty() is TRUE, equal (r, empty) is FALSE, and a union with it inserts an empty band' % (fn, slipped, slipped), ext[0][0].loc())
+            elif cmpd == {'x', 'y'}:
                 ck.ok(R, where, 'x1/x2 and y1/y2 compared')
             else:
                 ck.violation(R, fn, 'rectangle from arguments (%s)' % _w(u), '%s builds a one-rectangle region from its arguments without comparing %s: with a zero width or height (or an empty box) it produces a region that has no points but is reported non-empty, has one rectangle and is not equal to the empty region; the sibling constructors (init_rect, union_rect, init_with_extents) test the rectangle first' % (fn, ' and '.join(sorted({'x': 'x1 with x2', 'y': 'y1 with y2'}[k] for k in {'x', 'y'} - cmpd))), ext[0][0].loc())
@@ -2143,3 +2178,46 @@ def r6_12_clamped_boxes_revalidated(ck, P, rid='C06-R12'):
                     ck.violation(R, f.name, 'clamped rectangle not re-validated (%s)' % w, '%s clamps %s of a rectangle of the list to the coordinate limit at %s and can return without running the list through validate: two stacked bands that have become identical in x stay two rectangles, so the region is not canonical and not equal() to the same set of points built otherwise' % (f.name, fl[-1].split('.')[-1], x.loc()), x.loc())
     if n == 0:
         raise AnalysisBroken('%s: no clamp of a list rectangle to the coordinate limits found in translate' % rid)
+
+
+def r7_17_translation_amount_unchanged(ck, P, rid='C07-R17'):
+    """T-ARG: translate adds the caller's x to every x coordinate and the caller's y to every y coordinate - the parameters themselves, not a
+    clamped or otherwise rewritten copy (a shift clamped to the coordinate range is a different shift for every |dx| > 32767 that still
+    leaves part of a 16-bit region in range), and not the amount of the other axis."""
+    R = ck.rule(rid, 'in the translate functions every sum of a box coordinate (x1, x2 / y1, y2 loaded from a rectangle or the extents) with a translation amount adds the function\'s own x parameter to x coordinates and its y parameter to y coordinates, unchanged (only widened): a clamped copy of the amount moves the region by less than requested, the other axis\' amount moves it sideways', floor=20)
+    n = 0
+    for u in units(P):
+        for f in u.functions.values():
+            if not f.name.endswith('_translate'):
+                continue
+            pn = {i: nm for i, (nm, ty) in enumerate(f.params)}
+            for x in f.insts():
+                if x.op != 'add':
+                    continue
+                sides = []
+                for o in x.a:
+                    y = f.v(f.strip_casts(o))
+                    if y is not None and y.op == 'load':
+                        lf = f.last_field(f.path(y.a[0])) or ''
+                        m = re.match(r'pixman_box(16|32)\.([xy])[12]$', lf)
+                        sides.append(('coord', m.group(2)) if m else ('other', None))
+                    else:
+                        sides.append(('val', o))
+                if [s_[0] for s_ in sides].count('coord') != 1:
+                    continue
+                axis = [s_[1] for s_ in sides if s_[0] == 'coord'][0]
+                other = [s_[1] for s_ in sides if s_[0] == 'val']
+                if not other:
+                    continue
+                n += 1; ck.saw(f)
+                o = f.strip_casts(other[0])
+                where = '%s (%s): %s coordinate + amount at %s' % (f.name, _w(u), axis, x.loc())
+                if o[0] == 'a' and pn.get(o[1]) == axis:
+                    ck.ok(R, where)
+                elif o[0] == 'a':
+                    ck.violation(R, f.name, 'amount of the other axis (%s)' % _w(u), '%s adds its parameter %s to an %s coordinate at %s' % (f.name, pn.get(o[1]), axis, x.loc()), x.loc())
+                else:
+                    y = f.v(o)
+                    ck.violation(R, f.name, 'translation amount rewritten (%s)' % _w(u), '%s adds to an %s coordinate at %s a value (%s) that is not its %s parameter itself: the amount has been clamped or recomputed on the way, so the region is moved by something else than the caller asked for (for a 16-bit region a shift of 40000 clamped to 32767 leaves rectangles 7233 columns short of where they belong)' % (f.name, axis, x.loc(), y.op if y is not None else 'constant', axis), x.loc())
+    if n == 0:
+        raise AnalysisBroken('%s: no sum of a box coordinate and a translation amount found' % rid)
